@@ -1084,6 +1084,9 @@ func (g *Gen) genC10() {
 					if err == 0 && v.Cmp(two32) >= 0 {
 						return fmt.Sprintf("CSeq %q (>= 2^32) accepted as %d", d, c.CSeqNo)
 					}
+					if err != 0 && len(d) > 0 && (d == "0" || d[0] != '0') && v.Cmp(two32) < 0 {
+						return fmt.Sprintf("CSeq %q (< 2^32) rejected: %v", d, err)
+					}
 					return ""
 				})
 			}})
@@ -1111,6 +1114,15 @@ func (g *Gen) genC10() {
 						}
 						if kind == "uint" && v.Cmp(two32) >= 0 {
 							return fmt.Sprintf("Expires %q (>= 2^32) accepted as %d", d, c.UIVal)
+						}
+					}
+					// a number inside the documented range, written without padding, is not rejected
+					if err != 0 && len(d) > 0 && (d == "0" || d[0] != '0') {
+						if kind == "clen" && v.Cmp(big.NewInt(1<<24)) <= 0 && len(d) <= 9 {
+							return fmt.Sprintf("Content-Length %q (inside the documented range) rejected: %v", d, err)
+						}
+						if kind == "uint" && v.Cmp(two32) < 0 {
+							return fmt.Sprintf("Expires %q (< 2^32) rejected: %v", d, err)
 						}
 					}
 					return ""
